@@ -27,7 +27,7 @@ SPEC = dict(
     ],
     units=[
         pbt("c06_udp", ["harness/c06_udp.cpp", "harness/c01_interpose_net.cpp"], dict(
-            history=P(500, 12000, 16, 16, q_secs=45, t_secs=700),
+            history=P(500, 20000, 16, 16, q_secs=45, t_secs=700),
             idle=P(2, 24, 8, 16, q_secs=45, t_secs=700),
         )),
     ],
